@@ -405,7 +405,7 @@ def run_case_d(case):
             return False, ['d', 'other-property'], None, ['multi-handle-history', 'stopped-by-another-property']
     finally:
         gc.enable()
-    return nontrivial, ['d'] + fp, dict(sample, part='d'), ['multi-handle-history'] + [lab for lab in labels if lab.startswith('stale-query')]
+    return nontrivial, ['d'] + fp, dict(sample, part='d'), ['multi-handle-history'] + [lab for lab in labels if lab.startswith('stale-query') or lab == 'pack-between-yields']
 
 
 def run_shard(ctx):
